@@ -81,7 +81,7 @@ func (tg *target) final() map[string]proto.Message {
 // drawOp draws a write on id x (sometimes the control id y).
 func drawOp(t *rapid.T, label string, isValue bool) rlib.Op {
 	var op rlib.Op
-	v := int32(rapid.IntRange(1, 3).Draw(t, label+".v"))
+	v := int32(rapid.IntRange(0, 3).Draw(t, label+".v")) // 0: an all-default (empty) message
 	op.Val = fm(v)
 	if isValue {
 		op.Kind = rlib.OpSet
